@@ -218,7 +218,6 @@ def show(term: Any, limit: int = 400) -> str:
     return s if len(s) <= limit else s[:limit] + "…"
 
 
-<<<<<<< HEAD
 # ------------------------------------------------------------------ display-hook programs (C17)
 # val   := ('none',) ('ellipsis',) ('text', s) ('num', txt) ('html', s) ('reprHtml', s) ('tagRef', id) ('invalid',)
 # item  := ('text', s) ('html', s) ('robj', s) ('tagRef', id)
@@ -287,7 +286,6 @@ def p_hprog(t: Toks):
     if k == "b":
         return ("b", int(t.next()), p_list(t, p_hprog))
     raise ValueError(f"bad hook statement {k}")
-=======
 # ------------------------------------------------------------------ C14: argument values, stored elements, child operations
 # arg    := ('none',) | ('num', 'i'|'f'|'b', txt) | ('node', node) | ('list', [arg]) | ('tuple', [arg]) | ('tl', [arg])
 #         | ('seq', 'bytes'|'range'|'set'|'dict'|'gen', [arg]) | ('bad', k)
@@ -410,4 +408,3 @@ def p_op(t: Toks):
     if k in ("mul", "rmul", "imul"):
         return (k, p_int(t))
     raise ValueError(k)
->>>>>>> c14
